@@ -607,6 +607,7 @@ func propC15(c *Ctx) {
 	c.R.Explanation = "Equality under permutation is behavioural and not decided. Decided is the phase-order necessary condition: along the straight-line pipeline scanProject -> compileCore{collectMacro, checkMacroForRecursion, processPaste, collectRules, collectTags, collectUserTypes, collectPaths, addMissed...} -> buildCatalog -> compileCatalog -> validateCatalog, for every cross-block name space (macros, enums/rules, tags, user types) the last phase that inserts names precedes the first phase that resolves names (a lookup whose miss is an error); rules are attached to a user type only while its schema is still fresh; every memo is keyed by what its value depends on; and the keyword pre-filters used to end a Description cover every keyword. Today the tag name space violates it (path tags are created while Tags are resolved): recorded finding F20."
 	c.ruleCollectBeforeUse()
 	c.ruleNoEagerCompile()
+	c.ruleStatefulInBuild()
 	c.ruleRulesBeforeLoad()
 	c.ruleMemoCoverage("C15-MEMO-KEY-COVERS")
 	c.ruleFirstByteTables("C15-KEYWORD-PREFILTER")
@@ -969,6 +970,220 @@ func (c *Ctx) ruleNoEagerCompile() {
 		sort.Strings(names)
 		r.Ok("C15-NO-EAGER-COMPILE", "phase buildCatalog", fmt.Sprintf("%d functions reachable from the phase, none calls a compiling method (%s)", n, strings.Join(names, ", ")), c.pos(build.Decl.Pos()))
 	}
+}
+
+// ruleStatefulInBuild: a regex user type is one object shared by every body that may name it, and its example generator
+// is stateful (each Example() gives the next sample). jschema's AddType converts a regex type through FromRSchema, which
+// takes an example: done once per body while the catalog is built, it hands every body the "next" sample, so which
+// sample a body shows depends on how many bodies were built before it - on the order of the blocks.
+func (c *Ctx) ruleStatefulInBuild() {
+	r := c.R
+	r.Rule("C15-STATEFUL-IN-BUILD", "no function of the build phases calls, once per body or directive, a function of the dependency that advances the example generator of a shared user type (the functions that reach (*regex.RSchema).Example in the dependency's call graph, reference/dep_stateful.json): what one body gets must not depend on how many were built before it", 1)
+	reach, why := c.depReach()
+	if reach == nil {
+		r.Undecided("C15-STATEFUL-IN-BUILD", "reference", why, "")
+		return
+	}
+	// also the classified function itself
+	classes := map[string]string{}
+	for k, v := range reach {
+		if strings.HasPrefix(v, "stateful") {
+			classes[k] = v
+		}
+	}
+	for k, v := range depAPI {
+		if strings.HasPrefix(v, "stateful") {
+			classes[k] = v
+		}
+	}
+	gate := c.exampleGateField()
+	n := 0
+	for _, f := range c.libFns() {
+		pk := f.Pkg
+		inspectWithStack(f.Decl.Body, func(nd ast.Node, stack []ast.Node) bool {
+			call, ok := nd.(*ast.CallExpr)
+			if !ok {
+				return true
+			}
+			cal := callee(pk, call)
+			if cal == nil {
+				return true
+			}
+			class, ok := classes[cal.FullName()]
+			if !ok {
+				return true
+			}
+			// inside a sync.Once closure the call happens once per object: the memo of the serialisers (C16-DEP-CALLS)
+			for i := len(stack) - 1; i >= 1; i-- {
+				if fl, isLit := stack[i].(*ast.FuncLit); isLit {
+					if oc, isCall := stack[i-1].(*ast.CallExpr); isCall && len(oc.Args) == 1 && oc.Args[0] == ast.Expr(fl) {
+						if m := callee(pk, oc); m != nil && m.Name() == "Do" && m.Pkg() != nil && m.Pkg().Path() == "sync" {
+							return true
+						}
+					}
+				}
+			}
+			// the state is that of a regex schema: the call matters only where a receiver or argument can be one
+			carries := false
+			operands := append([]ast.Expr{}, call.Args...)
+			if sel, isSel := ast.Unparen(call.Fun).(*ast.SelectorExpr); isSel {
+				operands = append(operands, sel.X)
+			}
+			for _, a := range operands {
+				if tv, has := pk.TypesInfo.Types[a]; has && tv.Type != nil && mayHoldRegexSchema(tv.Type) {
+					carries = true
+				}
+			}
+			if !carries {
+				return true
+			}
+			n++
+			key := fmt.Sprintf("%s | %s", f.Name(), exprString(call.Fun))
+			if why := c.exampleHiddenFor(f, gate, 0); why != "" {
+				r.Ok("C15-STATEFUL-IN-BUILD", key, "the sample taken here is never shown: "+why, c.pos(call.Pos()))
+				return true
+			}
+			r.Bad("C15-STATEFUL-IN-BUILD", key, "the dependency function is "+class+" and is called once per body while the catalog is built, on user types shared by all bodies: the example a body shows for a regex user type depends on how many bodies were built before it, so swapping two independent blocks changes the catalog", c.pos(call.Pos()))
+			return true
+		})
+	}
+	if n == 0 {
+		r.Ok("C15-STATEFUL-IN-BUILD", "library", "no such call outside a once-only memo", "")
+	}
+}
+
+// exampleGateField: the boolean field of a schema wrapper that switches its example off: the wrapper's MarshalJSON
+// takes Example() only under "if !e.<field>".
+func (c *Ctx) exampleGateField() *types.Var {
+	var out *types.Var
+	for _, f := range c.libFns() {
+		if f.Obj.Name() != "MarshalJSON" {
+			continue
+		}
+		ast.Inspect(f.Decl.Body, func(n ast.Node) bool {
+			is, ok := n.(*ast.IfStmt)
+			if !ok {
+				return true
+			}
+			u, ok := ast.Unparen(is.Cond).(*ast.UnaryExpr)
+			if !ok || u.Op != token.NOT {
+				return true
+			}
+			sel, ok := ast.Unparen(u.X).(*ast.SelectorExpr)
+			if !ok {
+				return true
+			}
+			fv, ok := f.Pkg.TypesInfo.Uses[sel.Sel].(*types.Var)
+			if !ok || !fv.IsField() {
+				return true
+			}
+			takes := false
+			ast.Inspect(is.Body, func(m ast.Node) bool {
+				if call, isCall := m.(*ast.CallExpr); isCall {
+					if cal := callee(f.Pkg, call); cal != nil && cal.Name() == "Example" {
+						takes = true
+					}
+				}
+				return true
+			})
+			if takes && is.Else == nil {
+				out = fv
+			}
+			return true
+		})
+	}
+	return out
+}
+
+// exampleHiddenFor: the schema the function f works on ends in a wrapper whose example is switched off. Either f (or,
+// when f only serves a builder, every function that calls it, up to three levels) wraps the schema and sets the gate
+// field to true on the wrapper before returning it.
+func (c *Ctx) exampleHiddenFor(f *Fn, gate *types.Var, depth int) string {
+	if gate == nil || depth > 3 {
+		return ""
+	}
+	sets, wraps := false, false
+	ast.Inspect(f.Decl.Body, func(n ast.Node) bool {
+		switch x := n.(type) {
+		case *ast.AssignStmt:
+			for i, l := range x.Lhs {
+				if sel, ok := ast.Unparen(l).(*ast.SelectorExpr); ok && f.Pkg.TypesInfo.Uses[sel.Sel] == types.Object(gate) && i < len(x.Rhs) {
+					if tv, has := f.Pkg.TypesInfo.Types[x.Rhs[i]]; has && tv.Value != nil && constant.BoolVal(tv.Value) {
+						sets = true
+					}
+				}
+			}
+		case *ast.CallExpr:
+			if tv, has := f.Pkg.TypesInfo.Types[x]; has && tv.Type != nil {
+				t := tv.Type
+				if p, ok := t.(*types.Pointer); ok {
+					t = p.Elem()
+				}
+				if nm, ok := t.(*types.Named); ok {
+					if st, ok := nm.Underlying().(*types.Struct); ok {
+						for i := 0; i < st.NumFields(); i++ {
+							if st.Field(i) == gate {
+								wraps = true
+							}
+						}
+					}
+				}
+			}
+		}
+		return true
+	})
+	if wraps {
+		if sets {
+			return f.Name() + " wraps the schema and sets " + gate.Name() + " on the wrapper"
+		}
+		return ""
+	}
+	// f does not wrap: look at who uses it. Methods of a builder are reached through the builder's other methods.
+	sites, _ := c.callersOf(f)
+	if len(sites) == 0 {
+		return ""
+	}
+	why := ""
+	seen := map[*Fn]bool{}
+	for _, s := range sites {
+		if seen[s.g] || s.g == f {
+			continue
+		}
+		seen[s.g] = true
+		w := c.exampleHiddenFor(s.g, gate, depth+1)
+		if w == "" {
+			return ""
+		}
+		why = w
+	}
+	return why
+}
+
+// mayHoldRegexSchema: the static type is the regex schema (or a struct embedding it), or an interface: a value of it can
+// be a regex schema. A concrete type of another notation cannot.
+func mayHoldRegexSchema(t types.Type) bool {
+	if p, ok := t.(*types.Pointer); ok {
+		t = p.Elem()
+	}
+	switch u := t.(type) {
+	case *types.Named:
+		if o := u.Obj(); o != nil && o.Name() == "RSchema" && o.Pkg() != nil && strings.HasSuffix(o.Pkg().Path(), "notations/regex") {
+			return true
+		}
+		switch st := u.Underlying().(type) {
+		case *types.Interface:
+			return true
+		case *types.Struct:
+			for i := 0; i < st.NumFields(); i++ {
+				if st.Field(i).Embedded() && mayHoldRegexSchema(st.Field(i).Type()) {
+					return true
+				}
+			}
+		}
+	case *types.Interface:
+		return true
+	}
+	return false
 }
 
 func (c *Ctx) ruleRulesBeforeLoad() {
